@@ -421,3 +421,57 @@ def CB4(inp, dec):
         cl['own_result'] = Implies(ok, False if exc is not None else Eq(out, res))
         cl['error_code_raised'] = Implies(Not(ok), isinstance(exc, SyncObjException) and Eq(getattr(exc, 'errorCode', None), err))
     return Res(cl, nontrivial=True, obs=lambda: dict(fires=fires, out=show(out), exc=show(exc), code=show(getattr(exc, 'errorCode', None))))
+
+
+@obligation('CB6', props=('C02',), quick=[dict()], stubs=_STUBS2,
+            bounds='a follower forwards command A to leader a, learns of a new leader c (append_entries of a higher term), forwards command B to c; then a late reply of a for A arrives (any index/term or error), then the reply of c for B')
+def CB6(inp):
+    """forwarded requests are matched to their own replies across leader changes: a late reply of the old leader never
+    reaches the callback of a command that was forwarded later; A gets LEADER_CHANGED once, B is registered under the index and
+    term of c's reply only."""
+    o, tr, now = _mk_acc(inp)
+    p = so.sym_state(inp, o, now, 2, role=F, term_hi=3, base_hi=1, connected=('b', 'c'))
+    a_, c_ = p.others[0], p.others[1]          # 'b' plays the old leader, 'c' the new one
+    put(o, 'raftLeader', a_)
+    put(o, 'raftElectionDeadline', now + 100)
+    recA, recB = Rec('A'), Rec('B')
+    cmdA = cmds.regular(inp, o._methodToID['add_v0'], (1,))
+    cmdB = cmds.regular(inp, o._methodToID['add_v0'], (2,))
+    recv = getattr(o, P + 'onMessageReceived')
+    steps = []
+    _, exc = guard(o._applyCommand, cmdA, recA)
+    if exc is None:
+        _, exc = guard(o._checkCommandsToApply)
+    fwdA = [m for nd, m in tr.sent if m['type'] == 'apply_command']
+    if exc is None:
+        _, exc = guard(recv, c_, {'type': 'append_entries', 'term': p.term + 1, 'commit_index': 0, 'prevLogIdx': p.last, 'prevLogTerm': p.last_term, 'entries': []})
+    if exc is None:
+        _, exc = guard(o._applyCommand, cmdB, recB)
+    if exc is None:
+        _, exc = guard(o._checkCommandsToApply)
+    fwd = [(nd, m) for nd, m in tr.sent if m['type'] == 'apply_command']
+    cl = {'no_exception_so_far': exc is None}
+    cl['both_forwarded_to_their_leader'] = len(fwd) == 2 and fwd[0][0] == a_ and fwd[1][0] == c_
+    if exc is None and len(fwd) == 2:
+        ridA, ridB = fwd[0][1].get('request_id'), fwd[1][1].get('request_id')
+        stale_idx, stale_term = inp.int('stale_idx', 1, 9), inp.int('stale_term', 0, 3)
+        inp.assume(stale_idx > p.applied)
+        is_err = inp.flag('stale_is_error')
+        late = {'type': 'apply_command_response', 'request_id': ridA}
+        late.update({'error': FAIL_REASON.NOT_LEADER} if is_err else {'log_idx': stale_idx, 'log_term': stale_term})
+        _, exc = guard(recv, a_, late)
+        callsB_after_stale = list(recB.calls)
+        wc = get(o, 'commandsWaitingCommit')
+        regsB_stale = [(i, t) for i, lst in wc.items() for t, cb in lst if cb is recB]
+        new_idx, new_term = inp.int('new_idx', 1, 9), p.term + 1
+        inp.assume(new_idx > p.applied)
+        if exc is None:
+            _, exc = guard(recv, c_, {'type': 'apply_command_response', 'request_id': ridB, 'log_idx': new_idx, 'log_term': new_term})
+        regsB = [(i, t) for i, lst in get(o, 'commandsWaitingCommit').items() for t, cb in lst if cb is recB]
+        regsA = [(i, t) for i, lst in get(o, 'commandsWaitingCommit').items() for t, cb in lst if cb is recA]
+        cl['no_exception'] = exc is None
+        cl['A_told_leader_changed_once'] = recA.calls == [(None, FAIL_REASON.LEADER_CHANGED)]
+        cl['A_not_registered_for_commit'] = regsA == []
+        cl['stale_reply_does_not_touch_B'] = callsB_after_stale == [] and regsB_stale == []
+        cl['B_registered_under_its_own_reply_only'] = len(regsB) == 1 and bool(And(Eq(regsB[0][0], new_idx), Eq(regsB[0][1], new_term))) and recB.calls == []
+    return Res(cl, nontrivial=True, obs=lambda: dict(calls=dict(A=show(recA.calls), B=show(recB.calls)), fwd=[(nd.id, m.get('request_id')) for nd, m in fwd], exc=show(exc)))
